@@ -10,10 +10,10 @@ violation signatures. Scratch state lives under /tmp/mut and is reused between c
 """
 import json, os, re, subprocess, sys, time, shutil, glob
 
-MUT = "/tmp/mut"
+MUT = os.environ.get("MUT_DIR", "/tmp/mut")
 REPO = f"{MUT}/repo"
 VERIF = f"{MUT}/verif"
-ENV = dict(os.environ, CARGO_NET_OFFLINE="true", CARGO_TERM_COLOR="never", VERIF_REPO="/tmp/mut/repo")
+ENV = dict(os.environ, CARGO_NET_OFFLINE="true", CARGO_TERM_COLOR="never", VERIF_REPO=os.environ.get("MUT_DIR", "/tmp/mut") + "/repo")
 
 def sh(cmd, cwd=None, timeout=3600, env=None):
     p = subprocess.run(cmd, shell=True, cwd=cwd, stdout=subprocess.PIPE, stderr=subprocess.STDOUT, text=True, timeout=timeout, env=env or ENV)
@@ -55,7 +55,9 @@ def run_demo(demo):
         rc, out = sh(f"bash {demo}", cwd=os.path.dirname(demo), timeout=1800)
         return rc, out
     shutil.copy(demo, f"{REPO}/tests/seed_demo.rs")
-    rc, out = sh("cargo test --offline -p deserr --test seed_demo 2>&1", cwd=REPO, timeout=1800)
+    src = open(demo).read()
+    feats = " --features actix-web,axum" if ("actix" in src or "axum" in src) else ""
+    rc, out = sh(f"cargo test --offline -p deserr{feats} --test seed_demo 2>&1", cwd=REPO, timeout=2400)
     os.remove(f"{REPO}/tests/seed_demo.rs")
     return rc, out
 
